@@ -51,7 +51,7 @@ func (c *countCtx) polls() int {
 	return c.n
 }
 
-var stubNames = []string{"probe", "id", "probe2", "probe3", "vprobe", "fv", "typed", "typed2", "vtyped", "boom", "zero", "two", "eachcb", "callcb0", "cbv"}
+var stubNames = []string{"probe", "id", "probe2", "probe3", "vprobe", "fv", "typed", "typed2", "vtyped", "boom", "zero", "two", "eachcb", "callcb0", "cbv", "panicwith"}
 
 // vmResult is one run of a parsed program on the real interpreter.
 type vmResult struct {
@@ -98,6 +98,8 @@ func defineStubs(e *env.Env, tr func(interface{})) {
 		return int64(len(xs))
 	}))
 	must(e.Define("boom", func() { panic("boom") }))
+	// a host function that panics with the value it is given (a non-error value, possibly with an empty text)
+	must(e.Define("panicwith", func(x interface{}) { panic(x) }))
 	// host functions that call a script function back: without results, and with one
 	must(e.Define("eachcb", func(xs []interface{}, cb func(interface{})) {
 		for _, x := range xs {
